@@ -33,8 +33,10 @@ class UndefAll:
 
 
 class Use:    # `NAME[(args)]
-    def __init__(self, name, args=None, sep=' '):
-        self.name, self.args, self.sep = name, args, sep
+    def __init__(self, name, args=None, sep=' ', paren_items=None):
+        # paren_items: abstract program standing in parentheses right after the usage of an object-like macro
+        # (`LOG(`ifdef A 1 `else 0 `endif)): the text is restored after the body and preprocessed with it
+        self.name, self.args, self.sep, self.paren_items = name, args, sep, paren_items
 
 
 class Cond:   # `ifdef/`ifndef chain
@@ -53,13 +55,21 @@ class Kept:   # directive kept verbatim (timescale, celldefine, ...)
         self.text = text
 
 
+class Layout:  # first item of a program: line ends of the rendered text (CR LF instead of LF); no tokens
+    def __init__(self, crlf=False):
+        self.crlf = crlf
+
+
 class Rendered:
     def __init__(self):
         self.parts = []
         self.pos = 0
         self.line = 1
+        self.crlf = False
 
     def emit(self, s):
+        if self.crlf:
+            s = s.replace('\r\n', '\n').replace('\n', '\r\n')
         off = self.pos
         self.parts.append(s)
         self.pos += len(s.encode('utf-8'))
@@ -86,6 +96,9 @@ def render(items, r=None):
     if top:
         r = Rendered()
     for it in items:
+        if isinstance(it, Layout):
+            r.crlf = it.crlf
+            continue
         if isinstance(it, T):
             it.line = r.line
             it.off = r.emit(it.tok)
@@ -103,11 +116,14 @@ def render(items, r=None):
             it.head_end = r.pos
             if it.body is not None:
                 r.emit(' ')
+                if r.crlf:
+                    it.body = it.body.replace('\r\n', '\n').replace('\n', '\r\n')
                 it.body_off = r.emit(it.body)
             it.end = r.pos
             r.emit('\n')
             if it.body_items is not None:
                 sub = Rendered()
+                sub.crlf = r.crlf
                 render(it.body_items, sub)
                 _mark_macrobody(it.body_items)
         elif isinstance(it, Undef):
@@ -124,6 +140,11 @@ def render(items, r=None):
             if it.args is not None:
                 s += '(' + ','.join('' if a is None else a for a in it.args) + ')'
             it.off = r.emit(s)
+            if getattr(it, 'paren_items', None) is not None:
+                r.emit('(')
+                render(it.paren_items, r)
+                _mark_macrobody(it.paren_items)
+                r.emit(')')
             r.emit(it.sep)
         elif isinstance(it, Kept):
             it.line = r.line
@@ -194,7 +215,13 @@ class RefState:
         self.idp = 0             # include_depth
 
 
+def _nm(name):
+    """macro names are compared without the backslash of an escaped identifier (IEEE 5.6.1: \\A and A are the same name)"""
+    return name[1:] if name.startswith('\\') else name
+
+
 def ref_defined(st, name):
+    name = _nm(name)
     if name in PREDEFINED:
         return True
     e = st.table.get(name)
@@ -209,6 +236,7 @@ def ref_defined(st, name):
 
 
 def ref_defined_table(st, name):
+    name = _nm(name)
     e = st.table.get(name)
     if e is None:
         return False
@@ -221,6 +249,7 @@ def ref_defined_table(st, name):
 
 
 def ref_value(st, name):
+    name = _nm(name)
     """value of a defined macro: None (no body) or dict; forks on alternatives"""
     e = st.table[name]
     v = e[1]
@@ -255,6 +284,8 @@ def ref_eval(st, items, file, files=None, strip=False, expander=None, ignore_inc
     prev_kind = None
     prev_item = None
     for x in items:
+        if isinstance(x, Layout):
+            continue
         before, prev_item = prev_item, x
         # IEEE 22.4: only white space or a comment may share the line of an `include
         if isinstance(x, (T, Use, Def, Undef, UndefAll, Kept, Cond, Inc)):
@@ -272,10 +303,10 @@ def ref_eval(st, items, file, files=None, strip=False, expander=None, ignore_inc
             if not strip:
                 st.out.append(Tok(x.text, ('com', file, x.off)))
         elif isinstance(x, Def):
-            if x.name not in PREDEFINED:
-                st.table[x.name] = (True, {'body': x.body, 'file': file, 'body_off': getattr(x, 'body_off', None),
+            if _nm(x.name) not in PREDEFINED:
+                st.table[_nm(x.name)] = (True, {'body': x.body, 'file': file, 'body_off': getattr(x, 'body_off', None),
                                            'head_end': getattr(x, 'head_end', None), 'body_items': x.body_items,
-                                           'params': x.params, 'name': x.name,
+                                           'params': x.params, 'name': _nm(x.name),
                                            'src': 'macrobody' if getattr(x, 'in_macro_body', False) else 'text'})
             text = '`define ' + x.name
             if x.params is not None:
@@ -284,7 +315,7 @@ def ref_eval(st, items, file, files=None, strip=False, expander=None, ignore_inc
                 text += ' ' + x.body
             st.out.append(Tok(text, ('kept', file, x.off)))
         elif isinstance(x, Undef):
-            st.table.pop(x.name, None)
+            st.table.pop(_nm(x.name), None)
             for t in ('`undef', x.name):
                 st.out.append(Tok(t, ('kept', file, x.off)))
         elif isinstance(x, UndefAll):
@@ -364,6 +395,24 @@ def simple_expander(st, use, v, file, strip):
     if use.args is not None:
         # `X() with an object-like macro: the parenthesis text is restored right after the body
         paren = '(' + ','.join('' if a is None else a for a in use.args) + ')'
+    if getattr(use, 'paren_items', None) is not None:
+        # body, then the parenthesised text evaluated as part of the same expansion (conditionals decided, defines in force afterwards)
+        sub = RefState(st.it, st.table)
+        sub.files, sub.exists, sub.include_paths, sub.quirks = st.files, st.exists, st.include_paths, st.quirks
+        sub.rd = st.rd + 1
+        sub.idp = 0 if 'macro_expansion_resets_include_depth' in st.quirks else st.idp
+        sub.opened = st.opened
+        sub.depth_inc = st.depth_inc
+        def synth(tok):
+            t = T(tok, ' ')
+            t.off, t.line = None, getattr(use, 'line', None)
+            return t
+        body_items = v['body_items'] if v.get('body_items') is not None else [synth(t) for t in split_ws(v['body'])]
+        ref_eval(sub, body_items + [synth('(')] + list(use.paren_items) + [synth(')')], file, None, strip, simple_expander, False, st.include_paths)
+        st.table = sub.table
+        for t in sub.out:
+            st.out.append(Tok(t.text, prov))
+        return
     if v.get('body_items') is not None:
         sub = RefState(st.it, st.table)
         sub.files, sub.exists, sub.include_paths, sub.quirks = st.files, st.exists, st.include_paths, st.quirks
@@ -435,7 +484,8 @@ def ref_include(st, x, file, strip, expander, include_paths):
         if not ref_defined(st, x.style):
             raise RefError('DefineNotFound', x.style)
         v = ref_value(st, x.style)
-        fname = '' if (v is None or v.get('body') is None) else v['body'].strip().strip('"')
+        # the expansion of the macro without a trailing one-line comment, trimmed, quotes removed
+        fname = '' if (v is None or v.get('body') is None) else v['body'].split('//')[0].strip().strip('"')
     p = fname
     if not p.startswith('/') and not ref_exists(st, p):
         for ip in st.include_paths:
